@@ -382,6 +382,28 @@ pub fn run(run: &mut Run) -> Finish {
         });
         slice_no += 1;
     }
+    // many sections (anything done per batch of sections, or by bisecting a long section list)
+    let many = [15usize, 16, 17, 33, 64, 65, 130];
+    run.par_slice("many sections: 15/16/17/33/64/65/130 sections three lines apart (every second one starting mid-line), pool maps in rotation with three phases, constructed / decoded / listed out of order", 20, many.len() as u64 * 3, |idx, l| {
+        let k = idx & ((1 << 40) - 1);
+        let (n, phase) = (many[(k / 3) as usize], (k % 3) as usize);
+        let p = pool();
+        let sections = (0..n).map(|i| RSection { off: (3 * i as u32, if i % 2 == 1 { 2 } else { 0 }), url: None, map: Some(Box::new(RDoc::Regular(p[(i + phase) % p.len()].clone()))) }).collect();
+        let doc = RDoc::Index(RIndex { file: Some("bundle.js".into()), sections });
+        if !well_formed(&doc) {
+            l.evals += 1;
+            return;
+        }
+        for how in 0..4 {
+            let (v, ran) = check_doc(&doc, how);
+            if let Some((sig, what)) = v {
+                l.violation_sub(idx, how as u64, Viol::new(format!("C08/{sig}/many-sections"), format!("{what}\nindex: {}", doc_brief(&doc)), json!({"how": how, "many": true, "doc": serde_json::to_value(&doc).unwrap()})));
+            }
+            if ran {
+                l.case(true, h64(&("many", n, phase, how)));
+            }
+        }
+    });
     Finish {
         level: "exploration",
         rule: "E1: every index map of the stated space that satisfies the quantifier's well-formedness (strictly increasing offsets, each section's translated tokens before the next offset), built both through SourceMapIndex::new and by decoding the independent writer's document (and, for the agreement clause only, by decoding that document with its section list reversed and rotated). Oracles: flatten() equals RFlatten (line offset always, column offset on the section's first line only; source name, name, original position, range flag; ties as multiset; contents per source name = first seen; ignore-list membership; recursion into nested indexes; Err for an unresolved section); index.lookup_token(q) equals RIndexLookup (section with the greatest offset <= q, query made section-relative; any member of a tie accepted) on a grid around every offset; whenever the index finds a token the flattened map reports the same original location. Distinct by construction; non-trivial = well-formed index that was built; class = (sections, pool assignment, special slot).".into(),
@@ -393,5 +415,6 @@ pub fn run(run: &mut Run) -> Finish {
 pub fn recheck(case: &Value) -> Vec<Viol> {
     let Ok(d) = serde_json::from_value::<RDoc>(case["doc"].clone()) else { return vec![] };
     let how = case["how"].as_u64().unwrap_or(0) as usize;
-    check_doc(&d, how).0.map(|(s, w)| Viol::new(format!("C08/{s}"), w, case.clone())).into_iter().collect()
+    let suffix = if case["many"] == json!(true) { "/many-sections" } else { "" };
+    check_doc(&d, how).0.map(|(s, w)| Viol::new(format!("C08/{s}{suffix}"), w, case.clone())).into_iter().collect()
 }
